@@ -284,22 +284,20 @@ Inductive ins_res :=
 Definition mk (ic : nat) (leaf : bool) (ks : list Z) (cs : list node) : node :=
   Node (if leaf then leaf_cap ic (length ks) else maxCap) ks cs.
 
-(* Relocator::SplitNode / pvSplitNode: node n is full, the new item x goes to index c (for an internal
-   node sub = [newNode1; newNode2] of the split child c replace child c) *)
+(* Relocator::SplitNode / pvSplitNode: node n is full, the new item x goes to index c (for an internal node
+   sub = [newNode1; newNode2] of the split child replace child c).  s = GetSplitItemIndex(count, c).
+   pvSplitNode's two branches copy three segments each; their net effect is: insert x at c (and sub at child c),
+   then cut the (count+1)-item sequence at s' = s+1 (c <= s: new item goes left) or s' = s (c > s: right):
+   left node = items [0,s'), separator = item s' (always the OLD item s), right node = items (s', count]. *)
 Definition split_node (ic : nat) (n : node) (c : nat) (x : Z) (sub : list node) (pos_of : nat -> iter) : ins_res :=
-  let ks := n_items n in let cs := n_children n in let cnt := length ks in let leaf := is_leaf n in
-  let s := split_index cnt c in
-  if c <=? s then
-    Split (mk ic leaf (seg ks 0 c ++ x :: seg ks c (s - c)) (seg cs 0 c ++ sub ++ seg cs (S c) (s - c)))
-          (nth s ks 0%Z)
-          (mk ic leaf (seg ks (S s) (cnt - s - 1)) (seg cs (S s) (cnt - s)))
-          false (pos_of c)
-  else
-    Split (mk ic leaf (seg ks 0 s) (seg cs 0 (S s)))
-          (nth s ks 0%Z)
-          (mk ic leaf (seg ks (S s) (c - s - 1) ++ x :: seg ks c (cnt - c))
-                      (seg cs (S s) (c - s - 1) ++ sub ++ seg cs (S c) (cnt - c)))
-          true (pos_of (c - s - 1)).
+  let leaf := is_leaf n in
+  let ks' := insert_at c x (n_items n) in
+  let cs' := firstn c (n_children n) ++ sub ++ skipn (S c) (n_children n) in
+  let s := split_index (n_count n) c in
+  let s' := if c <=? s then S s else s in
+  Split (mk ic leaf (firstn s' ks') (firstn (S s') cs')) (nth s' ks' 0%Z)
+        (mk ic leaf (skipn (S s') ks') (skipn (S s') cs'))
+        (negb (c <=? s)) (pos_of (if c <=? s then c else c - s - 1)).
 
 (* pvAdd below the root: p is the path to the LEAF, j the index in it.  In-leaf insert, pvAddGrow, or the
    pvAddSplit cascade (written top-down: the result of the child tells the parent what to do) *)
